@@ -24,8 +24,8 @@ binding:   (a) spec -> code: every CASE x k concretizations is fed to the real p
            (c) process-wide state (spec/ReproTokenizerShared.tla: documents, objects, a memo keyed
            by line text; UnmodifiedLossless, Isolation, InputUntouched; negative control
            SharedTokens = TRUE): the previous document is kept alive and re-dumped / its input
-           re-tokenized after the next parse; for every 2nd case (thorough: every case of <= 4 lines, every
-           3rd 5-line case) the same lines
+           re-tokenized after the next parse; for every 2nd case (thorough: every case of <= 3 lines, every
+           2nd 4-line and 3rd 5-line case) the same lines
            are parsed as iterator, generator and twice as the same list object (the list must come
            back untouched), the first result is edited through the public API (set / delete / sort /
            append / insert), a different document sharing its lines (the CASE without the last line)
@@ -34,7 +34,7 @@ binding:   (a) spec -> code: every CASE x k concretizations is fed to the real p
            re-dumped after the next document was parsed and a sibling parse was edited; that output
            is one more element of `outs`, judged by TLC.
            (d) size dimension (notes/SIZE_STRESS.md): the abstract cases are unchanged; every 4th
-           (thorough: 2nd) CASE gets one more concretization whose segment lengths hit boundary
+           (thorough: 3rd, 6th of the 5-line cases) CASE gets one more concretization whose segment lengths hit boundary
            values (names up to 300, whitespace runs up to 4097, values / comments / garbage lines up
            to 8193 and occasionally 64 KiB) -- the expected text is still the CASE's `out` sequence,
            which does not depend on lengths.  The trace leg records size-stressed documents (long
@@ -1201,8 +1201,8 @@ def run(ctx):
     else:
         def background():
             try:
-                bg_res["r6"] = ctx.tlc_must_hold("ReproTokenizer", "MC_ReproTokenizer_bnd6.cfg", workers=6)
-                bg_res["r5"] = ctx.tlc_must_hold("ReproTokenizer", "MC_ReproTokenizer_bnd5.cfg", workers=6)
+                bg_res["r6"] = ctx.tlc_must_hold("ReproTokenizer", "MC_ReproTokenizer_bnd6.cfg", workers=4)
+                bg_res["r5"] = ctx.tlc_must_hold("ReproTokenizer", "MC_ReproTokenizer_bnd5.cfg", workers=4)
             except Exception as e:      # re-raised in the main thread
                 bg_res["err"] = e
         bg = threading.Thread(target=background)
@@ -1225,9 +1225,12 @@ def run(ctx):
         for cases, styles in plan:
             for c in cases:
                 by_len[len(c["ls"])] = by_len.get(len(c["ls"]), 0) + 1
-            # shared-state scenario: every 2nd case (quick); every case, every 3rd 5-line case (thorough)
-            every = 2 if quick else (3 if cases and len(cases[0]["ls"]) >= 5 else 1)
-            n_replayed += replay_cases(ctx, cases, styles, index, every, stats, big_every=4 if quick else 2)
+            # shared-state scenario: every 2nd case (quick); every case of <= 3 lines, every 2nd 4-line and
+            # every 3rd 5-line case (thorough)
+            n_lines = len(cases[0]["ls"]) if cases else 0
+            every = 2 if quick else (3 if n_lines >= 5 else 2 if n_lines == 4 else 1)
+            big_every = 4 if quick else (6 if cases and len(cases[0]["ls"]) >= 5 else 3)
+            n_replayed += replay_cases(ctx, cases, styles, index, every, stats, big_every=big_every)
             if len(ctx.violations) >= ctx.max_violation_files:
                 break
         ctx.extra["cases_by_length"] = {str(k): v for k, v in sorted(by_len.items())}
@@ -1243,7 +1246,7 @@ def run(ctx):
 
         # 4. code -> spec
         if len(ctx.violations) < ctx.max_violation_files:
-            ndocs, batch = (1200, 1200) if quick else (9000, 3000)
+            ndocs, batch = (1200, 1200) if quick else (7500, 2500)
             record_and_validate(ctx, g, ndocs, 40, batch, stats)
             ctx.traces += ndocs
             ctx.evaluations += ndocs
